@@ -75,7 +75,9 @@ func init() {
 		mkELS := func(inner []byte) (*encrypted_leaseset.EncryptedLeaseSet, error) {
 			return encrypted_leaseset.NewEncryptedLeaseSet(11, signer[32:], 1700000000, 600, 0, nil, inner, signer)
 		}
-		decrypt := func(inner []byte, key any) (ok bool, same bool, nilValue bool) {
+		decrypt := func(innerArg []byte, key any) (ok bool, same bool, nilValue bool) {
+			// (every probe works on its own copy of the ciphertext: the constructor keeps the slice it is given)
+			inner := append([]byte{}, innerArg...)
 			els, err := mkELS(inner)
 			if err != nil || els == nil {
 				return false, false, true
